@@ -66,6 +66,9 @@ class Contract:
         # list-valued fields (subset of modifies) that the function replaces by a NEW list object before it mutates
         # them: references to the old list object held by callers stay valid (lists are modelled by value)
         self.rebinds = list(kw.pop("rebinds", []))
+        # every-point invariant: clauses that must hold after EVERY executed statement of the body (the deductive
+        # counterpart of "at each executed source line", used for crash points)
+        self.pointwise = _named(kw.pop("pointwise", []), "pt")
         self._kw = None
         # extra runs with some parameter types replaced, e.g. [{"second": "obj:BloomFilterOnDisk"}, {"second": "foreign"}]
         self.variants = list(kw.pop("variants", []))               # lemma text: local name -> contract key
